@@ -1,6 +1,7 @@
 package ctfe
 
 import (
+	"bytes"
 	"context"
 	"strings"
 	"time"
@@ -9,6 +10,7 @@ import (
 	"github.com/google/certificate-transparency-go/trillian/ctfe/cache/lru"
 
 	"verif/sim/kernel"
+	"verif/sim/reflog"
 )
 
 // extState is the external issuance-chain storage of a run: the simulated
@@ -109,4 +111,14 @@ func (x *extState) options(parked []*kernel.Parked) []kernel.Option {
 		}})
 	}
 	return out
+}
+
+// fullExtra is the extra data the default (in-backend) mode would have stored for a leaf.
+func (x *extState) fullExtra(st *reflog.Leaf) []byte {
+	for _, sub := range x.w.subs {
+		if bytes.Equal(sha(sub.Leaf.DER), st.Identity) {
+			return sub.ExtraData()
+		}
+	}
+	return st.Extra
 }
